@@ -60,11 +60,11 @@ def check_solution(ctx, cls, args, m, exact, eng="E2_recompute"):
     for x, v in errs.items():
         r = rep_err[conv(x)]
         if (exact and F(r) != v) or (not exact and abs(float(r) - float(v)) > tol):
-            ctx.report(f"{cls}: reported error {r} on {x} but |f - explained| recomputed from the returned routes is {v}", rep)
+            errlib.report(ctx, f"{cls}: reported error {r} on {x} but |f - explained| recomputed from the returned routes is {v}", rep, cls, args, m)
             return None
     so = m.solver.get_objective_value()
     if abs(so - float(obj)) > 1e-6 * (len(errs) + 1):
-        ctx.report(f"{cls}: solver objective {so} differs from the scaled absolute error {obj} of the returned solution", rep)
+        errlib.report(ctx, f"{cls}: solver objective {so} differs from the scaled absolute error {obj} of the returned solution", rep, cls, args, m)
         return None
     ctx.count(eng, "errors_and_solver_objective_recomputed_ok")
     ro = m.get_objective_value()
@@ -132,8 +132,8 @@ def run_dag(ctx, n, tiny):
             ctx.count("E2_recompute", "unsolved:" + str(status))
             if status == "kInfeasible" and not cons:
                 # without subpath constraints every k >= 1 is feasible (klae_enc_complete: any k paths, zero weights)
-                ctx.report("kLeastAbsErrors is infeasible although there are no subpath constraints",
-                           {"class": "kLeastAbsErrors", "args": errlib.describe(args), "status": status})
+                errlib.report(ctx, "kLeastAbsErrors is infeasible although there are no subpath constraints",
+                              {"class": "kLeastAbsErrors", "args": errlib.describe(args), "status": status}, "kLeastAbsErrors", args, m)
         else:
             ctx.count("E2_recompute", "solved")
             so = check_solution(ctx, "kLeastAbsErrors", args, m, exact)
@@ -145,8 +145,9 @@ def run_dag(ctx, n, tiny):
                 if best is None:
                     ctx.count("E2_exhaustive_optimum", "skipped_too_large")
                 elif abs(float(best) - so) > 1e-6:
-                    ctx.report(f"kLeastAbsErrors objective {so} differs from the exhaustive optimum {best} over k-tuples of paths and integer weights <= max f",
-                               {"class": "kLeastAbsErrors", "args": errlib.describe(args), "solver_objective": so, "exhaustive_optimum": str(best)})
+                    errlib.report(ctx, f"kLeastAbsErrors objective {so} differs from the exhaustive optimum {best} over k-tuples of paths and integer weights <= max f",
+                                  {"class": "kLeastAbsErrors", "args": errlib.describe(args), "solver_objective": so, "exhaustive_optimum": str(best)},
+                                  "kLeastAbsErrors", args, m)
                 else:
                     ctx.count("E2_exhaustive_optimum", "agreements")
         ctx.case(["lae", tiny, errlib.describe(args)], nontrivial=nontriv,
@@ -179,6 +180,7 @@ def rand_cyclic_err(rng):
             args["elements_to_ignore"] = ign
     if rng.random() < 0.4:
         args["error_scaling"] = {e: rng.choice([0, 0.5, 1, 0.5]) for e in G.edges() if rng.random() < 0.3}
+    gen2.ensure_err_domain(args)
     return args, is_int
 
 
@@ -205,6 +207,11 @@ def run_cyclic(ctx, n):
             if st == "kInfeasible":
                 # without constraints every k >= 1 admits k walks with zero weights; the only known obstacle is the
                 # repetition cap derived from the weights: re-solve with all weights multiplied by a large constant
+                why = errlib.solver_disagrees("kLeastAbsErrorsCycles", args, m)
+                if why:
+                    ctx.report("kLeastAbsErrorsCycles is infeasible although there are no subset constraints [HiGHS contradicts itself: " + why + "]",
+                               {"class": "kLeastAbsErrorsCycles", "args": errlib.describe(args), "highs": why}, key=errlib.K_HIGHS)
+                    ctx.case(["lae-cyc", errlib.describe(args)], nontrivial=G_has_cycle(args["G"])); continue
                 verdict, c = errlib.rescale_feasible("kLeastAbsErrorsCycles", args)
                 if verdict == "inconclusive":
                     ctx.count("E2_recompute_cycles", "infeasible_diagnosis_inconclusive(time limit)")
@@ -234,7 +241,8 @@ def run_family(ctx):
             st = m.solver.get_model_status()
             if not m.is_solved():
                 if st == "kInfeasible":
-                    ctx.report(f"kLeastAbsErrorsCycles is infeasible on '{fam['name']}' (k={k}); k walks with zero weights exist within every repetition cap", rep)
+                    errlib.report(ctx, f"kLeastAbsErrorsCycles is infeasible on '{fam['name']}' (k={k}); k walks with zero weights exist within every repetition cap", rep,
+                                  "kLeastAbsErrorsCycles", args, m)
                 else:
                     ctx.count("E2_cyclic_family", "inconclusive:" + str(st))
                 continue
@@ -244,7 +252,8 @@ def run_family(ctx):
             if abs(so - float(fam["lae_opt"])) > 1e-6:
                 sol = m.get_solution()
                 rep["solution"] = {"walks": sol["walks"], "weights": sol["weights"]}
-                ctx.report(f"kLeastAbsErrorsCycles on '{fam['name']}' (k={k}) returns total error {so}, the optimum is {fam['lae_opt']}", rep)
+                errlib.report(ctx, f"kLeastAbsErrorsCycles on '{fam['name']}' (k={k}) returns total error {so}, the optimum is {fam['lae_opt']}", rep,
+                              "kLeastAbsErrorsCycles", args, m)
             else:
                 ctx.count("E2_cyclic_family", "optimum_agrees")
 
